@@ -77,4 +77,41 @@ PROPS = {
             "multi-subject clauses with alternatives (`a, b | c, d`) are generated only when GenCfg.multi_alt is on (see known findings)",
         ],
     },
+    "C10": {
+        "bin": "m_robust",
+        "build": BUILD_VH,
+        "level": "exploration",
+        "budget": {"quick": 25, "thorough": 600},
+        "timeout": {"quick": 1200, "thorough": 10800},
+        "death_is_violation": True,
+        "rule": ("workspaces = (a) 37 fixed hostile workspaces (30 shapes taken from reading lowering/inference: clauses with more/fewer patterns than subjects, use with too many parameters, "
+                 "spread/hole/duplicate-label calls, field access on non-records, tuple index out of range, lambda without parameter list, pipes into non-functions, constructor patterns with too many fields, "
+                 "recursive aliases/types; self-imports and import cycles of length 2-3 through qualified, unqualified and type imports), (b) each repository/corpus .gleam file pristine and as 3 mutated windows, "
+                 "(c) seeded generated workspaces of 1-4 modules put through 0-3 damage operations (token/char mutation, truncation, item duplication, self-import, import cycles, unresolved/duplicate imports, "
+                 "degenerate files, hostile snippets). Queries: hover, goto, references, highlight, completion (plain, '.', '@'), signature help, prepare-rename, rename (valid lower, valid upper, invalid), "
+                 "semantic highlight (full, 4 ranges), diagnostics, syntax tree - on every file including gleam.toml, at every token boundary, offset 0, EOF and around/inside every multi-byte character "
+                 "(sampled down to 400 offsets per file for long files). Each runs on a 2 MiB stack under a panic hook; the workspace is journaled first so a process death is attributable. "
+                 "A workspace is non-trivial if it has >=1 damage op or >=2 modules; distinct by FNV-1a of its files."),
+        "assumptions": [
+            "stack 2 MiB (tokio blocking pool); per-query bounded progress: a query above 20 s is a hang suspect, the shard watchdog makes the rest inconclusive",
+            "Cancelled cannot occur (single-threaded sweeps); it is counted if it does",
+        ],
+    },
+    "C20": {
+        "bin": "m_robust",
+        "build": BUILD_VH,
+        "level": "exploration",
+        "budget": {"quick": 25, "thorough": 600},
+        "timeout": {"quick": 1200, "thorough": 10800},
+        "death_is_violation": False,
+        "rule": ("the C10 sweep (same workspaces, offsets and query kinds); every range of every answer is judged: file belongs to the workspace; start<=end<=len on character boundaries; "
+                 "name-like results (hover, references, highlights, rename edits, prepare-rename, semantic highlights) coincide with exactly one token of the file's parse; node-like results "
+                 "(definition focus/full ranges) start and end on token boundaries with focus inside full; completion replacement ranges are one token, empty at the cursor, or node-like; diagnostics in bounds. "
+                 "Non-trivial/distinct as for C10."),
+        "assumptions": [
+            "token table = tokens of syntax::parse_module on the same text the database holds",
+            "a query that panics yields no ranges and is C10's violation",
+            "module targets are reported by glas as the empty range 0..0 of the module's file and accepted as such",
+        ],
+    },
 }
